@@ -1,7 +1,8 @@
 # sourced by bin/setup, bin/build and bin/check
 export VERIF="${VERIF:-/verif}"
 export REPO="${REPO:-/repo}"
-export WORK="$VERIF/.work"
+export WORK="${VERIF_WORK:-$VERIF/.work}"
+export VERIF_WORK="$WORK"
 export GOFLAGS=-mod=mod
 export GOPROXY=off
 unset GOSUMDB
